@@ -68,6 +68,10 @@ func (dec *Decoder) RepeatedMessage(field FieldNumber, fn func(c *Decoder)) {
 		}
 
 		message, n := protowire.ConsumeBytes(dec.buffer)
+		if n < 0 {
+			dec.fail(field, "unable to parse Bytes")
+			return
+		}
 		dec.pushState(message)
 		fn(dec)
 		dec.popState()
@@ -82,6 +86,10 @@ func (dec *Decoder) RepeatedEnum(field FieldNumber, add func(x int32)) {
 		switch dec.pendingWire {
 		case protowire.BytesType:
 			packed, n := protowire.ConsumeBytes(dec.buffer)
+			if n < 0 {
+				dec.fail(field, "unable to parse Bytes")
+				return
+			}
 			for len(packed) > 0 {
 				x, xn := protowire.ConsumeVarint(packed)
 				if xn < 0 {
@@ -118,6 +126,10 @@ func (dec *Decoder) Message(field FieldNumber, fn func(*Decoder)) {
 	}
 
 	message, n := protowire.ConsumeBytes(dec.buffer)
+	if n < 0 {
+		dec.fail(field, "unable to parse Bytes")
+		return
+	}
 	dec.pushState(message)
 	dec.Loop(fn)
 	dec.popState()
@@ -136,6 +148,10 @@ func (dec *Decoder) PresentMessage(field FieldNumber, fn func(*Decoder)) {
 	}
 
 	message, n := protowire.ConsumeBytes(dec.buffer)
+	if n < 0 {
+		dec.fail(field, "unable to parse Bytes")
+		return
+	}
 	dec.pushState(message)
 	dec.Loop(fn)
 	dec.popState()
